@@ -117,11 +117,16 @@ def check_match(ctx, case, doc, m, cls_cell):
 
 def check_case(ctx, text, doc, cls):
     import jsonpath
+    from rt.jp_oracle import equivalent_envs
 
     ctx.evaluation()
     case = {"text": text, "doc": doc, "class": cls}
     hooks.STATE.h2_violations.clear()
-    o = impl.call(lambda: list(jsonpath.finditer(text, doc)))
+    env = jsonpath.DEFAULT_ENV
+    if cls == "random" and ctx.rng.random() < 0.2:
+        name, env = ctx.rng.choice(equivalent_envs())
+        ctx.cell("configurations", name)
+    o = impl.call(lambda: list(env.finditer(text, doc)))
     if not o.ok:
         ctx.count("query_raised")
         return
@@ -163,6 +168,26 @@ def check_case(ctx, text, doc, cls):
     if hooks.STATE.h2_violations:
         ctx.violation("H2-local-location-invariant", case, {"text": text, "h2": list(hooks.STATE.h2_violations)})
         return
+    if cls == "random" and ctx.rng.random() < 0.2:
+        # the async route over lazily loaded containers must report the same locations, in normalized form
+        import asyncio
+
+        from .c08 import Plan, wrap
+
+        async def amatches():
+            return [(tuple(m.parts), m.path) async for m in await jsonpath.finditer_async(text, wrap(doc, Plan({}, None, None)))]
+        am = impl.call(lambda: asyncio.run(amatches()))
+        ctx.count("async_route_cases")
+        if not am.ok:
+            ctx.violation("async-route-raised:%s" % type(am.exc).__name__, case, {"text": text, "error": am.desc()})
+            return
+        for parts, path in am.value:
+            if path != normalized_path(parts) or not NP_RE.match(path):
+                ctx.violation("async-route-reports-a-location-that-is-not-a-normalized-path", case, {"text": text, "path": path, "parts": list(parts)})
+                return
+        if am.value != [(tuple(m.parts), m.path) for m in ms]:
+            ctx.violation("async-route-reports-other-locations-than-sync", case, {"text": text, "async": repr(am.value)[:300], "sync": repr([(tuple(m.parts), m.path) for m in ms])[:300]})
+            return
     if ms and (len(ctx.samples) < 3 or ctx.rng.random() < 0.003):
         ctx.sample({"text": text, "matches": len(ms), "paths": paths[:3], "pointers": want_ptrs[:3]})
 
